@@ -91,6 +91,16 @@ StepMap(e) ==
   /\ Check(e.lenient = (IF n > 0 THEN PreImage(w[lo], loc) ELSE PreImage(w[before], loc)),
            "lenient_resolver_earlier_or_shifted_forward_by_gap")
   /\ Check(e.back_ok, "instant_rendered_in_zone_maps_back_to_itself")
+  \* the stock resolvers combined: what each promises for two matches, and for a gap
+  /\ (Has(e, "resolved") =>
+        LET want == IF n = 1 THEN PreImage(w[lo], loc)
+                    ELSE IF n = 2 THEN (CASE e.amb = 0 -> PreImage(w[lo], loc) [] e.amb = 1 -> PreImage(w[hi], loc) [] OTHER -> AmbiguousT)
+                    ELSE (CASE e.skp = 0 -> Sub3(w[before].end, <<0, 0, 1>>)
+                            [] e.skp = 1 -> w[before + 1].start
+                            [] e.skp = 2 -> PreImage(w[before], loc)
+                            [] OTHER -> SkippedT)
+        IN  Check(e.resolved = want /\ e.resolved_meta, "stock_resolvers_do_what_they_promise"))
+  /\ (Has(e, "strict2") => Check(e.strict2 = e.single /\ e.lenient2 = e.lenient, "local_date_time_routes_agree_with_the_zone_routes"))
 
 \* start of day: the earliest instant whose local date (in the zone) is the given day
 StepSod(e) ==
